@@ -86,7 +86,10 @@ def h_prepare(H):
                               "when the run is reported as 'already exists / nothing to do', nothing was created or truncated on disk")
             else:
                 it.ctx.oblige(f"overwrite.flag.{tag}", z3.Not(ae_t), "post")
-                it.ctx.oblige(f"overwrite.all_files_opened.{tag}", z3.BoolVal(sorted(info) == ["shank0", "shank1"] and all({"ap_file", "lf_file", "ap_open_file", "lf_open_file", "chns"} <= set(v) for v in info.values())), "post")
+                truncated = {op[1] for op in fs_.log if op[0] == "open_w"}
+                it.ctx.oblige(f"overwrite.outputs_start_empty.{tag}", z3.BoolVal(sorted(info) == ["shank0", "shank1"] and all({"ap_file", "lf_file", "chns"} <= set(v) for v in info.values())
+                              and all(v[kk].key in truncated for v in info.values() for kk in ("ap_file", "lf_file"))), "post",
+                              "a forced (or first) run starts every shank's ap and lf file empty: whatever an earlier run left under these names is truncated before samples are written")
             it.ctx.oblige(f"outputs_never_alias_input.{tag}", z3.BoolVal(all(op[1] != ap.key and not op[1].startswith(ap.parent.key + "/") for op in created)), "post",
                           "every created path lies in a shank folder different from the input's folder")
             for sh, v in info.items():
